@@ -231,6 +231,30 @@ func treeInputs(tier string, r *rng, each func(entry *entry, s string)) {
 		}
 		each(entryByName(entryForDir(cf.Dir)), s)
 	}
+	// the hand-written probes, the grammar G0 and structural recombinations of the golden inputs: node shapes and SQL() branches
+	// (optional children, separators, operand kinds) the golden inputs do not have
+	for _, p := range probes {
+		each(entryByName(p.entry), p.text)
+	}
+	for i, st := range g0Sentences(tier) {
+		if tier == "thorough" || i%2 == 0 {
+			each(entryByName(st.entry), st.text)
+		}
+	}
+	ngraft := 2500
+	if tier == "thorough" {
+		ngraft = 40000
+	}
+	for i := 0; i < ngraft; i++ {
+		cf := files[r.intn(len(files))]
+		if cf.Bad {
+			continue
+		}
+		e := entryByName(entryForDir(cf.Dir))
+		if s := graft(r, e, cf.Text); s != "" {
+			each(e, s)
+		}
+	}
 }
 
 func genTree(w *bufio.Writer, tier string, r *rng) {
